@@ -182,13 +182,13 @@ Proof. exact no_effect_without_grant_l. Qed.
 Print Assumptions no_effect_without_grant.
 
 Definition ex_store : store :=
-  {| objs := [ {| o_uid := "1"; o_type := 2; o_owner := Some "alice"; o_pol := "default" |};
-               {| o_uid := "2"; o_type := 1; o_owner := Some "alice"; o_pol := "default" |} ];
+  {| objs := [ {| o_uid := "1"; o_type := 2; o_owner := Some "alice"; o_pol := "default"; o_content := [("state", "pre-active")] |};
+               {| o_uid := "2"; o_type := 1; o_owner := Some "alice"; o_pol := "default"; o_content := [("state", "pre-active")] |} ];
      dead := [] |}.
 Definition ex_bob : identity := {| id_user := Some "bob"; id_groups := None |}.
 Definition ex_req (op : Z) (u : option string) : request :=
   {| r_op := op; r_uid := u; r_uids := []; r_each_ok := []; r_wrap := None; r_pre_ok := true; r_post_ok := true;
-     r_match := None; r_new := [] |}.
+     r_match := None; r_upd := None; r_new := [] |}.
 
 (* bob asks for alice's symmetric key under the built-in default policy: refused with the not-found text *)
 Example no_effect_without_grant_nonvacuous :
@@ -265,6 +265,54 @@ Theorem only_addressed_objects_change : forall P id s ph r out s' ph',
 Proof. exact only_addressed_objects_change_l. Qed.
 Print Assumptions only_addressed_objects_change.
 
+(* THE FRAME over the whole attribute state.  Every object carries an abstract content (one (kind, value id) pair
+   per table of the data store that has rows for it; a value belongs to ONE object).  After any request item, on any
+   store, an object is still there with ALL its columns and its WHOLE content unchanged - unless the item succeeded, is an
+   attribute-writing operation (Activate, Revoke, Modify/Set/DeleteAttribute) or the deleting one (Destroy), and the
+   object is one the item loaded under a grant.  In particular a granted request on the requester's own object leaves
+   every other object's attributes alone, and ... *)
+Theorem content_frame : forall P id s ph r out s' ph',
+  wf_store s ->
+  step_item P id (s, ph) r = (out, (s', ph')) ->
+  forall o, In o (objs s) ->
+  In o (objs s') \/
+  (is_failure out = false /\
+   (In (r_op r) mutating_ops \/ exists h, handler_of (r_op r) = Some h /\ (0 < h_direct_queries h)%nat) /\
+   exists op, addressed r ph s o op /\ allowed_obj P id op o = true).
+Proof. exact content_frame_l. Qed.
+Print Assumptions content_frame.
+
+(* ... a denied or otherwise failed item changes no object's content (nor anything else), and neither does a request
+   all of whose items fail *)
+Theorem failure_changes_nothing : forall P id s ph r out st',
+  step_item P id (s, ph) r = (out, st') -> is_failure out = true -> st' = (s, ph).
+Proof. exact failure_changes_nothing_l. Qed.
+Print Assumptions failure_changes_nothing.
+
+Theorem failed_items_change_nothing : forall P id cont rs s ph outs st',
+  run_items P id cont (s, ph) rs = (outs, st') -> forallb is_failure outs = true -> st' = (s, ph).
+Proof. exact failed_items_change_nothing_l. Qed.
+Print Assumptions failed_items_change_nothing.
+
+Theorem mutating_ops_named :
+  mutating_ops = map op_named ["ACTIVATE"; "REVOKE"; "MODIFY_ATTRIBUTE"; "DELETE_ATTRIBUTE"; "SET_ATTRIBUTE"].
+Proof. exact mutating_ops_as_specified. Qed.
+Print Assumptions mutating_ops_named.
+
+(* bob activates his own key 3: its content is rewritten, alice's rows keep theirs; bob's attempt on alice's key 1
+   is refused and changes nothing *)
+Example content_frame_nonvacuous :
+  let s3 := {| objs := objs ex_store ++ [{| o_uid := "3"; o_type := 2; o_owner := Some "bob"; o_pol := "default";
+                                            o_content := [("state", "pre-active")] |}]; dead := [] |} in
+  let act u c := {| r_op := 18; r_uid := Some u; r_uids := []; r_each_ok := []; r_wrap := None; r_pre_ok := true;
+                    r_post_ok := true; r_match := None; r_upd := Some c; r_new := [] |} in
+  snd (step_item default_policies ex_bob (s3, None) (act "3" [("state", "active")]))
+  = ({| objs := objs ex_store ++ [{| o_uid := "3"; o_type := 2; o_owner := Some "bob"; o_pol := "default";
+                                     o_content := [("state", "active")] |}]; dead := [] |}, None) /\
+  step_item default_policies ex_bob (s3, None) (act "1" [("state", "active")])
+  = (ODenied "Could not locate object: 1", (s3, None)).
+Proof. split; vm_compute; reflexivity. Qed.
+
 (* Locate never lists an object the requester may not locate *)
 Theorem locate_only_permitted : forall P id s ph r ids st',
   r_op r = op_named "LOCATE" -> step_item P id (s, ph) r = (OSuccess ids, st') ->
@@ -286,7 +334,7 @@ Print Assumptions reachable_wf.
 
 (* type, owner and policy name of a row never change, over all histories of requests by any clients *)
 Theorem rows_never_change : forall P h s o o',
-  wf_store s -> In o (objs s) -> In o' (objs (run P s h)) -> o_uid o' = o_uid o -> o' = o.
+  wf_store s -> In o (objs s) -> In o' (objs (run P s h)) -> o_uid o' = o_uid o -> same_acl o o'.
 Proof. exact rows_never_change_l. Qed.
 Print Assumptions rows_never_change.
 
@@ -295,19 +343,19 @@ Theorem owner_forever : forall P s q h o,
   wf_store s ->
   In o (objs (snd (process_request P s q))) -> ~ In (o_uid o) (uids s) ->
   o_owner o = id_user (q_id q) /\
-  forall o', In o' (objs (run P (snd (process_request P s q)) h)) -> o_uid o' = o_uid o -> o' = o.
+  forall o', In o' (objs (run P (snd (process_request P s q)) h)) -> o_uid o' = o_uid o -> same_acl o o'.
 Proof. exact owner_forever_l. Qed.
 Print Assumptions owner_forever.
 
 Definition ex_create : request :=
   {| r_op := 1; r_uid := None; r_uids := []; r_each_ok := []; r_wrap := None; r_pre_ok := true; r_post_ok := true;
-     r_match := None; r_new := [("3", 2, "default")] |}.
+     r_match := None; r_upd := None; r_new := [("3", 2, "default", [("state", "pre-active")])] |}.
 
 (* bob creates object 3 and destroys it through the ID placeholder in the same batch; alice's rows stay *)
 Example owner_forever_nonvacuous :
   process_request default_policies ex_store {| q_id := ex_bob; q_cont := false; q_items := [ex_create] |}
   = ([OSuccess ["3"]],
-     {| objs := objs ex_store ++ [{| o_uid := "3"; o_type := 2; o_owner := Some "bob"; o_pol := "default" |}]; dead := [] |}) /\
+     {| objs := objs ex_store ++ [{| o_uid := "3"; o_type := 2; o_owner := Some "bob"; o_pol := "default"; o_content := [("state", "pre-active")] |}]; dead := [] |}) /\
   process_request default_policies ex_store {| q_id := ex_bob; q_cont := false; q_items := [ex_create; ex_req 20 None] |}
   = ([OSuccess ["3"]; OSuccess []], {| objs := objs ex_store; dead := ["3"] |}).
 Proof. split; vm_compute; reflexivity. Qed.
